@@ -8,8 +8,8 @@ independent Go visibility/import oracle.
 """
 import os
 
-THEOREMS = ["IstioModel.C07.HostTheorems"]
-STREAMS = [("host", 3000, 60000)]
+THEOREMS = ["IstioModel.C07.HostTheorems", "IstioModel.C07.VisTheorems"]
+STREAMS = [("host", 3000, 60000), ("vis", 2000, 40000)]
 
 
 def oracle(ctx, stream, case_lines, rep):
